@@ -68,6 +68,14 @@ def run(chk):
                 if "unstable" in r:
                     chk.add(Finding("R15-stable", "R15-stable::" + mir.strip_generics(fid), "%s orders output elements with %s: elements that compare equal (same uid, line and tag) can change places between two writes" % (fid, r), b.where(t["ln"])))
     chk.rule("R15-stable", "sort calls in writer.rs that are stable", n, floor=1)
+    # histories include merge_modules(): merged elements must arrive as 'new' elements (R08-reset of C08)
+    from . import common, c08
+    sub = common.Check(chk.pid, chk.tier)
+    c08.run(sub)
+    for f in sub.findings:
+        if f.rule == "R08-reset":
+            chk.add(Finding("R15-reset", f.key.replace("R08-reset", "R15-reset"), f.msg, f.where, f.detail))
+    chk.rule("R15-reset", "elements moved in by merge_modules() whose location info is reset (so that sort_new_items() places them as new elements)", sum(r["instances"] for r in sub.rules if r["rule"] == "R08-reset"), floor=20)
     from . import writertab
     writertab.compare(chk, "R15-order", fn_filter=lambda fn: fn.split("::")[-1] in ("sort_function", "add_group", "apply_position_restrictions"), floor=20)
     chk.assumptions += ["not decided: placement 'directly after the last placed element of its kind' (runtime order)"]
